@@ -32,6 +32,21 @@ extern void mpt_gnode_swap(MPT_STRUCT(node) *pri, MPT_STRUCT(node) *sec)
 	}
 }
 
+/* make neighbours and parent refer to node on its new position */
+static void node_attach(MPT_STRUCT(node) *node)
+{
+	MPT_STRUCT(node) *tmp;
+	
+	if ((tmp = node->next)) {
+		tmp->prev = node;
+	}
+	if ((tmp = node->prev)) {
+		tmp->next = node;
+	}
+	else if ((tmp = node->parent)) {
+		tmp->children = node;
+	}
+}
 /*!
  * \ingroup mptNode
  * \brief switch nodes
@@ -41,34 +56,27 @@ extern void mpt_gnode_swap(MPT_STRUCT(node) *pri, MPT_STRUCT(node) *sec)
  */
 extern void mpt_gnode_switch(MPT_STRUCT(node) *pri, MPT_STRUCT(node) *sec)
 {
-	MPT_STRUCT(node) *parent, *next, *prev, *tmp;
+	MPT_STRUCT(node) *parent, *next, *prev;
 	
+	if (pri == sec) {
+		return;
+	}
 	/* save node pointers */
 	parent	= pri->parent;
 	next	= pri->next;
 	prev	= pri->prev;
 	
-	/* reassign primary */
-	if ((pri->next = tmp = sec->next)) {
-		tmp->prev = pri;
-	}
-	else if ((pri->parent = tmp = sec->parent)
-	         && tmp->children == sec) {
-		tmp->children = pri;
-	}
-	if ((pri->prev = tmp = sec->prev)) {
-		tmp->next = pri;
-	}
+	/* reassign primary, adjacent nodes refer to each other */
+	pri->parent = sec->parent;
+	pri->next = (sec->next == pri) ? sec : sec->next;
+	pri->prev = (sec->prev == pri) ? sec : sec->prev;
+	
 	/* reassign secondary */
-	if ((sec->next = next)) {
-		next->prev = sec;
-	}
-	else if ((sec->parent = parent)
-	         && parent->children == pri) {
-		parent->children = sec;
-	}
-	if ((sec->prev = prev)) {
-		prev->next = sec;
-	}
+	sec->parent = parent;
+	sec->next = (next == sec) ? pri : next;
+	sec->prev = (prev == sec) ? pri : prev;
+	
+	/* update references to switched nodes */
+	node_attach(pri);
+	node_attach(sec);
 }
-
